@@ -291,6 +291,8 @@ def check_cases(ctx: Check, stream: str, cases: list[dict], selftest: bool) -> N
 
 def run(ctx: Check) -> int:
     ctx.prove(MODULE, REQUIRED)
+    from harness.agg_common import warm_up
+    warm_up()
     ctx.rule = ("cases = message histories against an empty database. Exhaustive: every one-engine history up to length "
                 "3 (quick; plus all of length 4 starting with register) / 5 (thorough) over {register, disconnect, start r, "
                 "stop r | r in 0..1}, longer ones sampled; every two-engine history up to length 2 (quick) / 3 (thorough) over "
